@@ -535,8 +535,8 @@ class ArgumentParser(ParserDeprecations, ActionsContainer, ArgumentLinking, argp
             env_var = get_env_var(self, action)
             if env_var in env and isinstance(action, _ActionSubCommands):
                 env_val = env[env_var]
+                cfg[action.dest] = subcommand = self._check_value_key(action, env_val, action.dest, cfg)
                 if env_val in action.choices:
-                    cfg[action.dest] = subcommand = self._check_value_key(action, env_val, action.dest, cfg)
                     pcfg = action._name_parser_map[env_val].parse_env(env=env, defaults=defaults, _skip_validation=True)
                     for k, v in vars(pcfg).items():
                         cfg[subcommand + "." + k] = v
